@@ -34,7 +34,9 @@ func buildAll(c *BuildCase, root, prop string, vs *vlist) *built {
 			panic(fmt.Sprintf("generator produced a case the reference planner rejects: %v", err))
 		}
 		b.plans[f] = plan
-		failingPrelude(c, root, f)
+		if preludeWanted(c) {
+			failingPrelude(c, root, f)
+		}
 		out, err := c.BuildOne(root, f)
 		if err != nil {
 			vs.add(prop+".build", f, "valid configuration rejected: %v", err)
@@ -67,6 +69,17 @@ func modeOf(f string, e *PEntry) int64 {
 // first - one because the destination writer refuses the first write, one because a configured maintainer script
 // does not exist (the failure then happens late, inside the assembly of the control data). A packager must not carry
 // anything from a failed build into the next one; if it does, the checked build that follows shows it.
+//
+// A failed build leaves the goroutines and block buffers of nfpm's parallel gzip writers behind (the packagers return
+// without closing them), a few MiB each that are never reclaimed. In the long thorough runs the prelude therefore
+// precedes every third case, chosen by a function of the case; quick runs and replays always have it.
+func preludeWanted(c *BuildCase) bool {
+	if !thorough() || os.Getenv("VERIF_REPLAY") != "" {
+		return true
+	}
+	return (len(c.Tree)*31+len(c.Contents)*7+int(c.MTime%1000))%3 == 0
+}
+
 func failingPrelude(c *BuildCase, root, f string) {
 	if cfg, err := c.ParseConfigFor(root, f); err == nil {
 		_ = packageInto(&cfg, f, &faultWriter{failAt: 0, budget: -1})
@@ -85,6 +98,32 @@ func failingPrelude(c *BuildCase, root, f string) {
 			_ = packageInto(&cfg, f, io.Discard)
 		}
 	}
+}
+
+// rewriteSources gives every non-empty regular source file below root new bytes of the same length and puts its
+// modification time back (what a rebuild after an in-place edit with preserved times, `cp -p` or a version bump of
+// equal width looks like). It returns the case describing the tree as it now is.
+func rewriteSources(c *BuildCase, root string) *BuildCase {
+	c2 := cloneCase(c)
+	for i := range c2.Tree {
+		n := &c2.Tree[i]
+		if n.Kind != "file" || !strings.HasPrefix(n.Rel, "src/") || n.Size == 0 || n.Text != "" {
+			continue
+		}
+		n.Seed += 7919
+		p := filepath.Join(root, n.Rel)
+		if err := os.WriteFile(p, n.Content(), 0o600); err != nil {
+			panic(err)
+		}
+		if n.MTime != 0 {
+			t := time.Unix(n.MTime, n.NS)
+			if err := os.Chtimes(p, t, t); err != nil {
+				panic(err)
+			}
+		}
+	}
+	// writing into a directory does not change its times, creating or removing entries would
+	return c2
 }
 
 func shaOf(b []byte) string {
@@ -389,9 +428,9 @@ func checkC01(c *BuildCase) []Violation {
 		}
 		crossCompare(c, b, &vs)
 		if len(vs) == 0 && c.Again {
-			// history: the very same source paths are packaged again, now with another umask and after the
-			// mode and mtime of a source file changed on disk
-			c2 := cloneCase(c)
+			// history: the very same source paths are packaged again, now with another umask, after every file got
+			// new bytes of the same length (times preserved) and after the mode and mtime of one source changed
+			c2 := rewriteSources(c, root)
 			c2.Again = false
 			c2.Umask = 0o077
 			if c.Umask == 0o077 {
@@ -414,7 +453,7 @@ func checkC01(c *BuildCase) []Violation {
 					var again vlist
 					compareTree(c2, f, d, b2.plans[f], &again)
 					for _, v := range again {
-						v.Detail = "second packaging of the same tree (umask " + fmt.Sprintf("%03o", c2.Umask) + ", one source re-chmod'ed): " + v.Detail
+						v.Detail = "second packaging of the same paths (umask " + fmt.Sprintf("%03o", c2.Umask) + ", files rewritten with equal length and times, one source re-chmod'ed): " + v.Detail
 						vs = append(vs, v)
 					}
 				}
